@@ -9,5 +9,6 @@ CONSTANTS
   ServeFromIndexNotOrder = TRUE
   TrustScanOrder = FALSE
   SwapBeforeApply = FALSE
+  BatchOnSharedCopy = FALSE
 INVARIANT CatchUpReachesHead
 CHECK_DEADLOCK FALSE
